@@ -1053,6 +1053,13 @@ def to_exception(ex, v):
 # abstract callables
 # =============================================================================================
 
+class StarPack:
+    """f(*xs) with xs of symbolic length."""
+
+    def __init__(self, seq):
+        self.seq = seq
+
+
 class AbstractFn:
     """An opaque callable argument (`fun`, `computer`, a task's `run`): calls append an event; the result
     is a function of the arguments when `functional` (deterministic), else a fresh value per call."""
@@ -1065,6 +1072,7 @@ class AbstractFn:
         self.functional = functional
 
     def app(self, ex, args):
+        args = [a.seq if isinstance(a, StarPack) else a for a in args]
         ts = [lift(ex, a, k) for a, k in zip(args, self.arg_kinds)]
         f = ufn(f'fn_{self.name}', [k.sort() for k in self.arg_kinds], self.ret_kind.sort())
         return Sym(self.ret_kind, f(*ts) if ts else f())
